@@ -116,6 +116,29 @@ func TestVerifC11(t *testing.T) {
 		}
 	}
 
+	// (1b) long runs: 99, 100, 101 and 250 link changes in a row, each connection handed out and given back at
+	// once (a link that never stops flapping), then a clean end: nothing in the property depends on how many
+	for _, n := range []int{99, 100, 101, 250} {
+		for _, a0 := range []bool{true, false} {
+			s := dvScript{Real: true, Autoconf0: a0}
+			for j := 0; j < n; j++ {
+				s.Dials = append(s.Dials, dvDial{Real: true, Steps: dvAllOK})
+				tk := dvDefaultTask
+				tk.R = dvLinkChange
+				s.Tasks = append(s.Tasks, tk)
+			}
+			s.Dials = append(s.Dials, dvDial{Real: true, Steps: dvAllOK})
+			s.Tasks = append(s.Tasks, dvDefaultTask)
+			id := fmt.Sprintf("flaps-%d-%v", n, a0)
+			if !dvWants(out, id) {
+				continue
+			}
+			for k, res := range dvExecAll(t, s) {
+				dvEmit(out, fmt.Sprintf("%s#%d", id, k), s, res, true, "stream:long-flapping", dvModeTag(s), fmt.Sprintf("autoconf0:%v", s.Autoconf0))
+			}
+		}
+	}
+
 	// (2) random, deeper
 	r := verifh.NewRand(verifh.Seed(), "C11")
 	n := 400
